@@ -373,7 +373,9 @@ func vfC08Run(c vfC08Case, ctx *vfCtx) *vfViolation {
 		}
 		if conf.HasMeta && conf.HasText {
 			res, err := st.NewSearch().WithText("fox").WithMetadata(Eq("tag", fmt.Sprintf("t%d", tag))).WithK(vfBigK).Execute()
-			if v := mixed("text + metadata", res, err, func(d *vfStoreDoc) bool { return d.hasText(&conf) && d.hasMeta(&conf) && d.N%3 == tag && d.Word == "fox" }); v != nil {
+			if v := mixed("text + metadata", res, err, func(d *vfStoreDoc) bool {
+				return d.hasText(&conf) && d.hasMeta(&conf) && d.N%3 == tag && d.Word == "fox"
+			}); v != nil {
 				return v
 			}
 		}
